@@ -579,10 +579,15 @@ def agg_variant(e):
     return None
 
 
-def array_variants(e):
-    """['A','B'] for an array aggregate of fieldless enum variants, else None"""
+def array_variants(e, facts=None):
+    """['A','B'] for an array aggregate of fieldless enum variants, else None.  With `facts`, a named constant whose
+    initialiser is such an array (`const SEPARATORS: [CharClass; 3] = [..]`) is read through its initialiser."""
     from . import sym as S_
     e = S_.strip_refs(e)
+    if facts is not None and isinstance(e, tuple) and e and e[0] == "nconst":
+        cb = facts.all_bodies.get(e[1]) or facts.bodies.get(e[1])
+        if cb is not None and getattr(cb, "kind", None) in ("const", "static"):
+            e = S_.strip_refs(S_.Sym(cb, facts).local(0))
     if isinstance(e, tuple) and e and e[0] == "agg" and e[1] == "array":
         out = [agg_variant(x) for x in e[3]]
         if all(out):
